@@ -226,7 +226,8 @@ def check_allocators(chk, rule='R06.7', only_shared_clause=False):
                            'memory - whatever its limits - is locked by memory.grow and memory.size' % (len(inits), inits), site + ':mutex')
             if only_shared_clause:
                 continue
-            allowed = [ini] + ([mx] if shared else [])
+            # a shared memory is never reallocated by memory.grow (C18 R18.2): its storage must be the declared maximum from the start
+            allowed = [mx] if shared else [ini]
             size = fields.get('size')
             cover = [x for x in allowed if is_bytes(size, x)]
             chk.expect(bool(cover), rule, inst + ':size',
@@ -239,9 +240,17 @@ def check_allocators(chk, rule='R06.7', only_shared_clause=False):
                 continue
             nm, a = data_alloc[0]
             if nm != 'calloc':
-                zero = any(n2 == 'extern:memset' or n2 == 'memset' for n2, _a, _l in p.events)
-                chk.expect(zero, rule, inst + ':zeroed', 'linear memory is obtained with %s and not cleared: new memories must read as zero' % nm,
-                           site + ':zeroed')
+                # not zero-initialising: the whole block must be cleared - for a shared memory that includes the pages reserved for later
+                # grows (memory.grow does not touch the storage of a shared memory, the new pages must already read as zero)
+                asked = pe.strip_casts(a[-1]) if a else None
+                if pe.has_relation(pe.relations(p), '==', lambda x: repr(x) == '$calloc-result' or (repr(x).endswith('.data') and 'calloc-result' in repr(x)), lambda y: y == 0):
+                    continue        # the allocation failed on this path: nothing to clear
+                sets = [_a for n2, _a, _l in p.events if n2 in ('extern:memset', 'memset') and len(_a) >= 3]
+                zero = any(_a[1] == 0 and repr(pe.strip_casts(_a[2])) == repr(asked) for _a in sets)
+                chk.expect(zero, rule, inst + ':zeroed',
+                           'linear memory is obtained with %s(%r) and %s: every byte of a new memory - for a shared memory also the pages reserved for '
+                           'later grows, which memory.grow does not clear - must read as zero'
+                           % (nm, a[-1] if a else None, ('cleared only by %r' % [(x[1], x[2]) for x in sets]) if sets else 'not cleared'), site + ':zeroed')
                 continue
             aa = [pe.strip_casts(x) for x in a]
             total_ok = bool(cover) and ((is_bytes(aa[0], cover[0]) and aa[1] == 1) or (aa[0] == 1 and is_bytes(aa[1], cover[0])) or
